@@ -77,18 +77,20 @@ def check_min_props(ctx: Ctx, what: str, src_machines, spec, R: DFA, replay: dic
         return False
     if retain_src is not None:
         names = list(R.states)
-        if not (len(names) == 1 and not isinstance(names[0], frozenset) and not R.final_states
-                and langoracle.find_word([R], alphabet, lambda v: v[0]) is None):
-            # (the all-dead case returns empty_language's state 0: recorded in DESIGN.md §8 F16, naming only)
-            if not all(isinstance(x, frozenset) and x and x <= set(retain_src) for x in names):
-                ctx.prop_fail(f"{what}: retained names are not non-empty sets of source states: {names!r}", replay)
+        if not all(isinstance(x, frozenset) and x and x <= set(retain_src) for x in names):
+            # open known finding F16: when every kept state is dead `_minify` returns
+            # `empty_language(...)`, whose single state is named 0 instead of the set of merged states
+            f16 = (len(names) == 1 and names[0] == 0 and not isinstance(names[0], frozenset) and not R.final_states
+                   and langoracle.find_word([R], alphabet, lambda v: v[0]) is None)
+            ctx.prop_fail(f"{what}: retained names are not non-empty sets of source states: {names!r}", replay,
+                          "C05:retain_names:empty-language-state-0" if f16 else None)
+            return bool(f16)
+        seen = set()
+        for x in names:
+            if seen & x:
+                ctx.prop_fail(f"{what}: retained names overlap", replay)
                 return False
-            seen = set()
-            for x in names:
-                if seen & x:
-                    ctx.prop_fail(f"{what}: retained names overlap", replay)
-                    return False
-                seen |= x
+            seen |= x
     return True
 
 
